@@ -12,7 +12,7 @@
 From Coq Require Import ZArith QArith Qround Qabs List Bool.
 From RV Require Import Base.PyNum Timing.Snapper Timing.Snap Timing.TimingMap Timing.Reseat Timing.Integrate
   Formats.BMSText Formats.BMS Formats.BMSSpec Timing.Domain Generated.Tables Proofs.SnapperProofs Proofs.BMSProofs Proofs.BMSDenoteProofs
-  Proofs.BMSParseProofs Proofs.BMSReadReturnsProofs.
+  Proofs.BMSParseProofs Proofs.BMSReadReturnsProofs Proofs.BMSReadTempoProofs Formats.BMSGuards.
 From Coq Require Import Sorting.Permutation.
 Import ListNotations.
 Open Scope Z_scope.
@@ -209,6 +209,36 @@ Example C04_text_domain_nonvacuous :
   && match bms_read tbl lay_PMS Tables.bms.max_keys w_mixed with
      | Some c => c04_specb 0 lay_PMS w_mixed c && (length (c_hits c) =? 4)%nat
                  && match c_holds c with [h] => (ho_col h =? 2) && Qeq_bool (ho_off h) 0 && Qeq_bool (ho_len h) 3000 | _ => false end
+     | None => false
+     end = true.
+Proof. vm_compute. reflexivity. Qed.
+
+(* ---- the tempo list when every tempo object sits on a measure line (Proofs/BMSReadTempoProofs.v).
+   C04_bms_read_tempo_list_on_lines: on the text-level domain, if every channel-03 / 08 object of the text sits at position 0
+   of its measure (bms_tempo_on_lines, decidable on the text; no reseating is needed, no tie can arise: read_guards makes the
+   script strictly increasing), BMSMap.read RETURNS (no assumption that it does), the chart is the one the text denotes, and its
+   tempo list IS the denoted tempo script: same count, same order, each point at the integrated time of its change (by value),
+   with its tempo exactly, metronome 4. ---- *)
+Theorem C04_bms_read_tempo_list_on_lines : forall (lay : layout) (mk : Z) (lines : list text),
+  layout_ok mk lay = true -> wf_bms_lines lay lines = true -> read_guards tbl lines = true -> bms_tempo_on_lines lines = true ->
+  exists c d, bms_read tbl lay mk lines = Some c /\ bms_denote lay lines = Some d /\ chart_denotes c d
+    /\ Forall2 (fun b tb => (bo_off b == fst tb)%Q /\ bo_bpm b = snd tb /\ bo_met b = 4%Q) (c_bpms c) (d_tempo d).
+Proof. exact (bms_read_wf_tempo_list_on_lines tbl C04_table_ok). Qed.
+Theorem C04_bms_read_tempo_list_on_lines_dom : forall (lay : layout) (mk : Z) (lines : list text),
+  layout_ok mk lay = true -> text_dom lay lines -> read_guards tbl lines = true -> bms_tempo_on_lines lines = true ->
+  exists c d, bms_read tbl lay mk lines = Some c /\ bms_denote lay lines = Some d /\ chart_denotes c d
+    /\ Forall2 (fun b tb => (bo_off b == fst tb)%Q /\ bo_bpm b = snd tb /\ bo_met b = 4%Q) (c_bpms c) (d_tempo d).
+Proof. exact (bms_read_tempo_list_on_lines tbl C04_table_ok). Qed.
+(* non-vacuity: a 03 object at measure 1 and an 08 object at measure 2, both at position 0, lines out of order, an LN pair *)
+Definition w_on_lines : list text := [(tx[L[35;66;80;77;32;49;50;48]])%Z; (tx[L[35;66;80;77;48;49;32;49;53;48]])%Z; (tx[L[35;76;78;79;66;74;32;90;90]])%Z; (tx[L[35;48;48;50;48;56;58;48;49]])%Z; (tx[L[35;48;48;49;49;49;58;48;49]])%Z; (tx[L[35;48;48;49;48;51;58;55;56]])%Z; (tx[L[35;48;48;50;49;49;58;48;48;90;90]])%Z; (tx[L[35;48;48;49;49;50;58;48;48;48;50]])%Z; (tx[L[35;84;73;84;76;69;32;120]])%Z].
+Example C04_tempo_on_lines_nonvacuous :
+  wf_bms_lines lay_PMS w_on_lines && read_guards tbl w_on_lines && bms_tempo_on_lines w_on_lines && negb (bms_tempo_on_lines w_good)
+  && match bms_read tbl lay_PMS Tables.bms.max_keys w_on_lines with
+     | Some c => match c_bpms c with
+                 | [a; b; d] => Qeq_bool (bo_off a) 0 && Qeq_bool (bo_bpm a) 120 && Qeq_bool (bo_off b) 2000 && Qeq_bool (bo_bpm b) 120
+                                && Qeq_bool (bo_off d) 4000 && Qeq_bool (bo_bpm d) 150
+                 | _ => false
+                 end
      | None => false
      end = true.
 Proof. vm_compute. reflexivity. Qed.
